@@ -9,7 +9,7 @@ bad = []
 APU = {"A": 1.0, "Angstrom": 1.0, "Bohr": 0.529177210903, "au": 0.529177210903, "pm": 0.01, "nm": 10.0, "fm": 1e-5}
 m = ml.Molecule(name="g")
 for i, el in enumerate(["C", "O", "H"]):
-    m.add_atom(ml.Atom(el, label=f"{el}{i}"), [1.25 * (i + 1), -0.5 * i, 100.0 + i], 0.0)
+    m.add_atom(ml.Atom(el, label=f"{el}{i}"), [1.25 * (i + 1), -1234.5 * i, 12345.0 + i], 0.0)
 m.connect(0, 1)
 if w.get("op") == "units":
     fmt = w.get("format", "xyz")
@@ -23,7 +23,11 @@ if w.get("op") == "units":
 else:
     for cls in (ml.Molecule, ml.CartesianGeometry):
         src = cls(m) if cls is ml.Molecule else ml.CartesianGeometry(m)
-        r = cls.loads_xyz(src.dumps_xyz())
+        try:
+            r = cls.loads_xyz(src.dumps_xyz())
+        except BaseException as ex:
+            bad.append(f"{cls.__name__}: molli rejects its own xyz output: {type(ex).__name__}: {str(ex)[:80]}")
+            continue
         if r.n_atoms != src.n_atoms or [a.element for a in r.atoms] != [a.element for a in src.atoms] or not np.allclose(r.coords, src.coords, atol=1e-6):
             bad.append(f"{cls.__name__}: xyz round trip changed atoms/coordinates")
     e = ml.ConformerEnsemble(m, n_conformers=2)
